@@ -199,7 +199,7 @@ def run_threads(cfg, preempt=None, opcode=False):
 
         for p in cfg["progs"]:
             ctl.spawn((lambda p: (lambda: run_ops(p)))(p), "client")
-        status = ctl.run(timeout=cfg.get("timeout", 30.0))
+        status = ctl.run(timeout=cfg.get("timeout", 120.0))
         final = {"disposed": sched.__dict__["disposed_"], "thread_none": sched.__dict__["thread_"] is None,
                  "ready_list": [getattr(x, "lbl", None) for x in list(collections.deque.__iter__(sched._ready_list))],
                  "queue": [getattr(x[0], "lbl", None) for x in sorted(sched._queue.items, key=lambda p: (p[0].duetime, p[1]))],
